@@ -563,7 +563,7 @@ func ruleT7(c *Ctx) *RuleResult {
 		where := ""
 		for _, fn := range c.Funcs {
 			for _, s := range storesToField(c, fn, gate) {
-				if _, fresh := rootOf(s.Addr).(*ssa.Alloc); fresh {
+				if freshObject(s.Addr) {
 					continue
 				}
 				if fn != fin {
@@ -592,7 +592,7 @@ func ruleT7(c *Ctx) *RuleResult {
 				okS := true
 				for _, fn := range c.Funcs {
 					for _, s := range storesToField(c, fn, sf) {
-						if _, fresh := rootOf(s.Addr).(*ssa.Alloc); !fresh && fn != fin {
+						if !freshObject(s.Addr) && fn != fin {
 							okS = false
 						}
 					}
